@@ -11,7 +11,7 @@ from . import fmt
 SIMFS = "/simfs/"
 BASES = "ACGT"
 QUAL_FULL = "".join(chr(c) for c in range(33, 127))
-ID_RE = re.compile(r"rd\d{5}")
+ID_RE = re.compile(r"rd\d{5,}")  # (six digits from 100000 reads on)
 
 
 def rand_seq(rng, n, alphabet=BASES):
@@ -818,7 +818,7 @@ def gen_case(rng, profile=None):
         big = 3
     if big == 3:
         # more reads than a 16-bit counter holds (and than any batch size in the code), kept short
-        n = rng.randint(66000, 72000)
+        n = rng.randint(66000, 72000) if rng.random() < 0.6 else rng.randint(100500, 104000)
         P = dict(P, maxlen=24)
     elif big:
         # a few large inputs per batch (hundreds of KiB; rarely several MiB with chunks of
@@ -830,6 +830,20 @@ def gen_case(rng, profile=None):
     if paired and rng.random() < 0.3:
         r2max = rng.choice([8, 15, 120])  # very different R1/R2 lengths: chunk limits differ
     records = gen_records(rng, n, paired, fastq, ad1, ad2, P["maxlen"], r2max, P["upper_only"], times, revcomp)
+    if records and big and rng.random() < 0.5:
+        # a file whose composition changes along its length (a run that starts badly): the first part
+        # holds mostly very short reads, so what each chunk contributes to each output file varies
+        cut = int(len(records) * rng.uniform(0.2, 0.7))
+        for r_ in records[:cut]:
+            if rng.random() < 0.92:
+                L = rng.randint(0, 12 if big < 3 else 6)
+                r_[3] = r_[3][:L]
+                r_[4] = r_[4][:L] if r_[4] is not None else None
+                if paired:
+                    r_[5] = r_[5][:L]
+                    r_[6] = r_[6][:L] if r_[6] is not None else None
+        if not any(g[0] == "-m" for g in opts) and rng.random() < 0.6:
+            opts.append(["-m", "20" if big < 3 else "8"])
     if records and not big and rng.random() < P["p_long_read"]:
         # one or two very long reads (long-read technologies): lengths beyond 16-bit limits
         for _ in range(rng.randint(1, 2)):
@@ -1029,6 +1043,9 @@ def gen_knobs(rng, case, P=None):
     knobs["tty"] = e.random() < P["p_tty"]
     knobs["piped_exts"] = e.choice([[], [".xz", ".zst"], [".xz", ".zst"], [".gz", ".bz2", ".xz", ".zst"]])
     knobs["emfile_at"] = e.randint(1, 12) if e.random() < P["p_emfile"] else None
+    if knobs["emfile_at"] is not None and e.random() < 0.4:
+        # the limit is reached a second time later in the run
+        knobs["emfile_at"] = [knobs["emfile_at"], knobs["emfile_at"] + e.randint(1, 10)]
     knobs["relpaths"] = e.random() < 0.3  # run in the data directory and name all files relative to it
     knobs["preexist"] = e.random() < 0.15  # the named output files exist already (a re-run)
     if e.random() < P["p_enospc"]:
@@ -1038,6 +1055,20 @@ def gen_knobs(rng, case, P=None):
         knobs["stdin_kind"] = case["input"]["stdin"]
     if case["input"].get("devfd"):
         knobs["devfd"] = True
+    if (case["input"].get("devfd") or case["input"].get("stdin") == "pipe") and e.random() < 0.45:
+        # a slow producer at the other end of the pipe: reads come in small pieces, so that chunks are
+        # much smaller than --buffer-size - which half of these cases leave at its default of 4 MB
+        knobs["short_reads"] = e.choice([64, 200, 1000, 4096])
+        knobs["default_buffer"] = e.random() < 0.5
+        if knobs["default_buffer"]:
+            # many small chunks under the default buffer size; often with one worker descheduled for long,
+            # so that the results of all later chunks pile up in the main process
+            knobs["short_reads"] = e.choice([64, 128, 200])
+            if e.random() < 0.6:
+                lo = e.randrange(5, 60)
+                knobs["policy"] = {"kind": "starve", "victim": e.randrange(2, workers + 2), "window": [lo, lo + 20000]}
+        # (a piece is never so small that the input falls into more than a few hundred chunks)
+        knobs["short_reads"] = max(knobs["short_reads"], total // 250)
     return knobs
 
 
@@ -1089,7 +1120,9 @@ def build_argv(case, cores=1, opts=None, outs=None, extra=()):
         argv += g
     argv += list(extra)
     if cores > 1:
-        argv += ["-j", str(cores), "--buffer-size", str(case["knobs"]["buffer_size"])]
+        argv += ["-j", str(cores)]
+        if not case["knobs"].get("default_buffer"):
+            argv += ["--buffer-size", str(case["knobs"]["buffer_size"])]
     if case["input"].get("stdin"):
         argv.append("-")  # always the last argument: engine.Ctx.run feeds the input file to standard input
     else:
